@@ -30,6 +30,7 @@ def run(ctx, rep):
         rep.ob("C07.siblings", "dc-agree" + tag, bool(dc_same), "both clock-distributing variants push exactly one FRMW to the reference, first in the frame, iff the time has not been read", how="table")
         chunk_write(prog, rep, tag)
         state_checks(prog, rep, tag)
+        answers_nopanic(ctx, prog, rep, tag)
 
 
 def cycle(prog, rep, fn, tag):
@@ -222,3 +223,20 @@ def state_checks(prog, rep, tag):
         ok = ok and okg
         # count returned = number of pushes
     rep.ob(P, "member-addressed" + tag, ok, "each state check is an FPRD of AlStatus addressed to the configured address of the next group member, pushed only while it fits", loc=b.span)
+
+
+NP_FNS = ["SubDeviceGroup::tx_rx", "SubDeviceGroup::tx_rx_sync_system_time", "SubDeviceGroup::tx_rx_dc", "SubDeviceGroup::process_received_pdi_chunk",
+          "subdevice_group::push_state_checks", "<ReceivedPduIter as Iterator>::next", "<AlControl as EtherCrabWireRead>::unpack_from_slice"]
+
+
+def answers_nopanic(ctx, prog, rep, tag):
+    """`arbitrary device answers` (the property's quantifier): no panic-capable operation of the cycle
+    functions and the response iterator on data read out of a received frame."""
+    from .. import nopanic, npcommon
+
+    t = npcommon.taint_for(prog)
+    aud = npcommon.audited_for(ctx, prog, rep, "C07", tag)
+    roots = {prog.body(n).root for n in NP_FNS}
+    scope, sinks, stale = nopanic.run_scope(prog, rep, "C07", t, NP_FNS, tag, audited=aud, within=lambda b: b.root in roots)
+    npcommon.report_stale(rep, "C07", stale, tag)
+    rep.floor("C07 tainted sinks" + tag, len({s.key for s in sinks}), 15)
